@@ -95,7 +95,8 @@ class Textbook:
         which is where rule interactions (optional words, pauses, braille indicators) show"""
         return rng.sample(cls.COMMON, 2) + [rng.choice(cls.CONSTRUCTS)]
 
-    def __init__(self, rng, decimal=".", max_depth=4, p_ident=0.25, features=None, p_leaf=0.45):
+    def __init__(self, rng, decimal=".", max_depth=4, p_ident=0.25, features=None, p_leaf=0.45, p_lead_mark=0.0):
+        self.p_lead_mark = p_lead_mark    # share of the planted literals written without integer part (",75"): only for oracles that know the form
         self.rng = rng
         self.decimal = decimal
         self.max_depth = max_depth
@@ -115,6 +116,8 @@ class Textbook:
             if whole % 10 == 0 or frac % 10 == 0 or whole % 11 == 0 and r.random() < 0.5:
                 continue
             s = "%d%s%d" % (whole, self.decimal, frac)
+            if self.p_lead_mark and r.random() < self.p_lead_mark:
+                s = "%s%d" % (self.decimal, frac)
             # no literal may contain another one's integer or fraction part as a neighbour-free substring
             if whole in self.used or frac in self.used:
                 continue
